@@ -6,6 +6,7 @@
     C <kind h|s> <max> <volatile 0|1>                                   start of a case (fresh, never-checked object)
     R <state> <execStart> <execEnd> <now> | <obs>
     A <via h|a|e|x|c> <sticky> <notify> <persistent> <expiry> <now> | <obs>      (h = HTTP request, modelled as a)
+    A <via f|y> <sticky 0..3> <notify 0..2> <persistent 0..2> <expiry> <now> | <obs>   (external commands, literal arguments)
     X <via h|a|e|c> <now> | <obs>
     T <now> [<reader>] | <obs>                                           (<reader>: which getter looks first; the model
                                                                           and the specification do not depend on it)
@@ -13,6 +14,7 @@
     D <on> <now> | <obs>                                                 downtime in effect added / removed
     U <on> <now> | <obs>                                                 object paused (SetAuthority(false)) / resumed
     N <now> | <obs>                                                      NotificationTimerHandler with the reminder due
+    F <now> | <obs>                                                      Checkable::FireSuppressedNotifications()
     <obs> = <acc> <ack> <expiry> <handled> <problem> <state> <stype> <attempt> <nSet> <nClr> <nAckN> <nProbN> <comments>
             <raw> <sevAck> <suppProblem> <suppRecovery> <nRecN> <nReminders>
     <comments> = `-` or `entry:persistent:expire,...` (sorted)
@@ -59,6 +61,12 @@ structure DSt where
   reminds : Nat := 0
   reminders : Nat := 0         -- reminders attempted
   remindersWithheldAck : Nat := 0  -- due reminders of a hard problem withheld only because of the acknowledgement
+  fires : Nat := 0             -- runs of the suppressed-notification handler
+  firesPending : Nat := 0      -- … with something in the stash
+  firesKeptAck : Nat := 0      -- … that kept the stash only because of the acknowledgement
+  firesReleased : Nat := 0     -- … that emptied the stash
+  firesNotified : Nat := 0     -- … and requested the owed notification
+  firesAfterExpiry : Nat := 0  -- … after noticing themselves that the acknowledgement had run out
   readerFirst : Nat := 0       -- T lines on which a reader other than GetHandled looked first
   handledDowntimeOnly : Nat := 0   -- looks at which the object is handled without being acknowledged
   httpOps : Nat := 0           -- acknowledge / remove operations that went through HttpHandler::ProcessRequest
@@ -142,6 +150,11 @@ def parseOp (ws : List String) : Option Op :=
   | ["R", st, es, ee, nw] => do
     let st ← (parseNat? st) >>= SState.ofNat?
     pure (.result st (← parseInt? es) (← parseInt? ee) (← parseInt? nw))
+  | ["A", "f", sticky, notify, pers, ex, nw] => do
+    -- the external command's literal arguments: sticky iff 2, notify / persistent iff > 0
+    pure (.ack .ext ((← parseNat? sticky) == 2) ((← parseNat? notify) != 0) ((← parseNat? pers) != 0) (← parseInt? ex) (← parseInt? nw))
+  | ["A", "y", sticky, notify, pers, ex, nw] => do
+    pure (.ack .extExpire ((← parseNat? sticky) == 2) ((← parseNat? notify) != 0) ((← parseNat? pers) != 0) (← parseInt? ex) (← parseInt? nw))
   | ["A", via, sticky, notify, pers, ex, nw] => do
     pure (.ack (← parseVia via) (← parseBool? sticky) (← parseBool? notify) (← parseBool? pers) (← parseInt? ex) (← parseInt? nw))
   | ["X", via, nw] => do pure (.remove (← parseRVia via) (← parseInt? nw))
@@ -153,6 +166,7 @@ def parseOp (ws : List String) : Option Op :=
   | ["D", on, nw] => do pure (.downtime (← parseBool? on) (← parseInt? nw))
   | ["U", on, nw] => do pure (.pause (← parseBool? on) (← parseInt? nw))
   | ["N", nw] => do pure (.remind (← parseInt? nw))
+  | ["F", nw] => do pure (.fire (← parseInt? nw))
   | _ => none
 
 def bump (d : DSt) (op : Op) (io : Obs) : DSt := Id.run do
@@ -203,6 +217,16 @@ def bump (d : DSt) (op : Op) (io : Obs) : DSt := Id.run do
   | .remind _ =>
     d := { d with reminds := d.reminds + 1, reminders := d.reminders + io.nRem }
     if remindable d.cfg d.st && io.ack != .none then d := { d with remindersWithheldAck := d.remindersWithheldAck + 1 }
+  | .fire _ =>
+    d := { d with fires := d.fires + 1 }
+    if d.sp.suppP || d.sp.suppR then
+      d := { d with firesPending := d.firesPending + 1 }
+      if !io.suppP && !io.suppR then
+        d := { d with firesReleased := d.firesReleased + 1 }
+        if io.nProbN + io.nRecN > 0 then d := { d with firesNotified := d.firesNotified + 1 }
+        if wasExpired then d := { d with firesAfterExpiry := d.firesAfterExpiry + 1 }
+      else if io.ack != .none && !d.sp.inDt && !d.sp.paused && d.sp.stype == .hard then
+        d := { d with firesKeptAck := d.firesKeptAck + 1 }
   if io.handled && io.ack == .none then d := { d with handledDowntimeOnly := d.handledDowntimeOnly + 1 }
   -- a case is non-trivial once an acknowledgement was set and later cleared; distinct by hash of its operations
   if d.caseSet && io.nClr > 0 && !d.caseCounted then
@@ -267,4 +291,4 @@ def main : IO Unit := do
   let stdin ← IO.getStdin
   let d ← foldLines stdin handle ({} : DSt)
   let d := closeCase d
-  IO.println s!"STATS cases={d.caseNo} steps={d.steps} results={d.results} dropped={d.dropped} state_changes={d.stateChanges} acks={d.acks} ack_accepted={d.ackAccepted} refused_ok_or_expiry={d.refusedPre} refused_acked={d.refusedAcked} ack_gone_at_once={d.ackGone} removes={d.removes} advances={d.advances} pumps={d.pumps} pumps_fired={d.pumpsFired} comments_expired_by_timer={d.cmtExpired} downtime_ops={d.downtimeOps} pause_ops={d.pauseOps} paused_acks_with_notify={d.pausedAcks} raw_lagged_looks={d.rawLagged} stashed={d.stashed} stashed_while_acked={d.stashedWhileAcked} recovery_notifs={d.recoveryNotifs} reader_first_looks={d.readerFirst} remind_ops={d.reminds} reminders={d.reminders} reminders_withheld_by_ack={d.remindersWithheldAck} handled_by_downtime_only={d.handledDowntimeOnly} http_ops={d.httpOps} set_events={d.setEvents} cleared_events={d.clearedEvents} clr_expiry={d.clrExpiry} clr_normal_change={d.clrNormal} clr_sticky_recovery={d.clrSticky} sticky_kept_on_change={d.stickyKept} clr_remove={d.clrRemove} ack_notifs={d.ackNotifs} problem_notifs={d.problemNotifs} handled_looks={d.handledLooks} comments_removed={d.cmtRemoved} comments_kept_later={d.cmtKeptLater} comments_kept_persistent={d.cmtKeptPersistent} nontrivial={d.nontrivial} mismatches={d.mismatches} specfails={d.specfails}"
+  IO.println s!"STATS cases={d.caseNo} steps={d.steps} results={d.results} dropped={d.dropped} state_changes={d.stateChanges} acks={d.acks} ack_accepted={d.ackAccepted} refused_ok_or_expiry={d.refusedPre} refused_acked={d.refusedAcked} ack_gone_at_once={d.ackGone} removes={d.removes} advances={d.advances} pumps={d.pumps} pumps_fired={d.pumpsFired} comments_expired_by_timer={d.cmtExpired} downtime_ops={d.downtimeOps} pause_ops={d.pauseOps} paused_acks_with_notify={d.pausedAcks} raw_lagged_looks={d.rawLagged} stashed={d.stashed} stashed_while_acked={d.stashedWhileAcked} recovery_notifs={d.recoveryNotifs} reader_first_looks={d.readerFirst} remind_ops={d.reminds} reminders={d.reminders} reminders_withheld_by_ack={d.remindersWithheldAck} fire_ops={d.fires} fires_pending={d.firesPending} fires_kept_by_ack={d.firesKeptAck} fires_released={d.firesReleased} fires_notified={d.firesNotified} fires_after_expiry={d.firesAfterExpiry} handled_by_downtime_only={d.handledDowntimeOnly} http_ops={d.httpOps} set_events={d.setEvents} cleared_events={d.clearedEvents} clr_expiry={d.clrExpiry} clr_normal_change={d.clrNormal} clr_sticky_recovery={d.clrSticky} sticky_kept_on_change={d.stickyKept} clr_remove={d.clrRemove} ack_notifs={d.ackNotifs} problem_notifs={d.problemNotifs} handled_looks={d.handledLooks} comments_removed={d.cmtRemoved} comments_kept_later={d.cmtKeptLater} comments_kept_persistent={d.cmtKeptPersistent} nontrivial={d.nontrivial} mismatches={d.mismatches} specfails={d.specfails}"
